@@ -133,7 +133,7 @@ def run_history(seed, env, res, probes, allow_subprocess=False):
     sizes_seen = []
     steps = rnd.randint(5, 40)
     for step in range(steps):
-        op = rnd.choice(["resize", "resize", "resize_back", "resize_back", "pixels", "swap_on", "swap_off", "q_on", "q_off", "ratio", "xt", "read", "read", "read", "read_ratio", "probe", "probe", "probe_resize", "read_colours", "read_name", "read_on_kitty", "read_support"] + (["subprocess"] if allow_subprocess else []))
+        op = rnd.choice(["resize", "resize", "resize_back", "resize_back", "pixels", "swap_on", "swap_off", "q_on", "q_off", "ratio", "xt", "read", "read", "read", "read_ratio", "probe", "probe", "probe_resize", "read_colours", "read_name", "read_on_kitty", "read_support", "read_interrupted"] + (["subprocess"] if allow_subprocess else []))
         ops.append(op)
         if m.term[:2] not in sizes_seen:
             sizes_seen.append(m.term[:2])
@@ -233,6 +233,31 @@ def run_history(seed, env, res, probes, allow_subprocess=False):
                     if first_use:
                         # the support check read (and cached) the cell size
                         m.note_read(acc0 - {None} or acc0)
+        elif op == "read_interrupted":
+            # Ctrl-C arrives while the library is waiting for the terminal's answer (the
+            # pixel size has to be asked for): nothing has been found out, so nothing may
+            # have been recorded for the current terminal size
+            acc = m.acceptable_cell()
+            saved_q = utils.query_terminal
+
+            def interrupted(*a, **k):
+                raise KeyboardInterrupt
+
+            utils.query_terminal = interrupted
+            try:
+                cs = utils.get_cell_size()
+            except KeyboardInterrupt:
+                res.count("cell-size determinations interrupted")
+                continue
+            finally:
+                utils.query_terminal = saved_q
+            # (served from the cache or found by ioctl: an ordinary read)
+            got = tuple(cs) if cs else None
+            res.count("reads compared with the model")
+            if got not in acc:
+                fail("stale-cell-size", "get_cell_size() = %r, acceptable %r (terminal %s)" % (got, sorted(map(str, acc)), m.term))
+                return
+            m.note_read(got)
         elif op == "read":
             acc = m.acceptable_cell()
             cs = utils.get_cell_size()
